@@ -170,6 +170,26 @@ CLAIMS = {
         ref="DESIGN.md 4/C16, A.2"),
 }
 
+# additions of seed round 6 (kept apart from the long texts above)
+ROUND6 = {
+    "C01": "Code with data-dependent control flow on doubles (e.g. a zero test in DFT space) is refused by the real-domain reading; such obligations fall back to structured "
+           "native probe operands (monomials at 0, 1, N/2, N-1, zero operand) on the real pipeline and say so.",
+    "C03": "Module lifetime: two NTT120 modules of different N filled / released by the real fill_module_precomp / delete_module_info (table functions replaced by stand-ins of the "
+           "same object structure) - the tables of a live module stay valid and unchanged, nothing is freed twice or leaked.",
+    "C04": "The native whole-transform oracle of the level induction also runs butterfly-shaped extreme patterns for every level.",
+    "C11": "Also here: the inverse DFT written over its own input with more output rows than input rows (no dependence on prior output contents), and the NTT120 module "
+           "fill/delete lifetime obligations.",
+    "C12": "SSA write set of the real reim FFT/iFFT drivers (reference and AVX2) on both sides of the m = 2048 depth-first switch (m = 64, 2048, 4096, 8192; pass kernels "
+           "replaced by logging stand-ins), confirmed by ThreadSanitizer.",
+    "C15": "The reim4 convolution and pointwise multiply kernels on an arbitrary prior output: every result term is a term of the operands only.",
+    "C16": "An integer pipeline with in-place steps (vec_znx_copy truncating / zero-extending inside its own buffer, in-place negate) is decided bit-precisely.",
+    "C17": "Every pointwise multiply / multiply-accumulate kernel also with the output being operand a or operand b.",
+    "C18": "q120 conversions and lazy additions leave their sources bit-identical (a reduced representative written back counts as a modification).",
+}
+for _k, _v in ROUND6.items():
+    if _k in CLAIMS:
+        CLAIMS[_k]["text"] = CLAIMS[_k]["text"].rstrip() + " " + _v
+
 NOT_YET = "check not built yet in this session (work in progress; see DESIGN.md section 4 for the plan)"
 
 
